@@ -180,11 +180,23 @@ func (sdc *signingDoneCheck) waitUntilAllDone(ctx context.Context) (
 			return nil, 0, errWaitDoneTimedOut
 
 		case <-ticker.C:
-			if sdc.expectedSignersCount == len(sdc.doneSigners) {
+			// The listener goroutine updates the map concurrently; work
+			// on a snapshot taken under the mutex.
+			sdc.doneSignersMutex.Lock()
+			doneSigners := make(
+				map[group.MemberIndex]*signingDoneMessage,
+				len(sdc.doneSigners),
+			)
+			for memberIndex, doneMessage := range sdc.doneSigners {
+				doneSigners[memberIndex] = doneMessage
+			}
+			sdc.doneSignersMutex.Unlock()
+
+			if sdc.expectedSignersCount == len(doneSigners) {
 				var signature *tecdsa.Signature
 				var latestEndBlock uint64
 
-				for _, doneMessage := range sdc.doneSigners {
+				for _, doneMessage := range doneSigners {
 					if signature == nil {
 						signature = doneMessage.signature
 					} else {
